@@ -6,7 +6,7 @@ check_histories(ctx, histories, chunk=40) -> [(code, index)] per history
     `index`; 4 = committed-rows mismatch after op `index` (index = len(ops): the final dump).
 model_trace(ctx, history) -> text          the model's per-op results and dumps, as printed by Coq (diagnosis only)
 """
-import re
+import re, threading
 import vlib
 import session_fuzz as sf
 
@@ -19,12 +19,44 @@ def case_term(h):
         sf.coq_schema(h['schema']), sf.coq_ops(h['ops']), sf.coq_results(h['results']), sf.coq_dumps(h['dumps']))
 
 
+_RETRY_MARKS = ('inconsistent assumptions', 'unable to locate library', 'cannot find a physical path', 'cannot find library', 'corrupted compiled library',
+                'is not a valid compiled library', 'bad magic number')
+_remake_lock = threading.Lock()
+
+
+def _stale_library(msg):
+    m = msg.lower()
+    return any(x in m for x in _RETRY_MARKS)
+
+
+def coq_eval_robust(ctx, text, name, timeout=900):
+    """vlib.coq_eval, robust against a concurrent rebuild of the session cone: scratch files are compiled outside the runner's lock, so another
+    check (or a builder) re-making Model/Session*.vo in the meantime makes coqc fail with "compiled library ... makes inconsistent assumptions"
+    (or a missing / half-written .vo).  Then: wait for the lock, re-make the cone of Model/SessionCheck.vo, retry (twice at most)."""
+    for attempt in range(3):
+        try:
+            return vlib.coq_eval(ctx, text, name, timeout)
+        except RuntimeError as e:
+            if attempt == 2 or not _stale_library(str(e)): raise
+            with _remake_lock:
+                ok, log = vlib.make_targets(['Model/SessionCheck.vo'])       # takes vlib.CoqLock itself, i.e. waits for a running make
+            if not ok: raise RuntimeError('re-making Model/SessionCheck.vo failed:\n' + log[-3000:])
+
+
+def coq_eval_many_robust(ctx, header, chunks, name, jobs=8, timeout=900):
+    from concurrent.futures import ThreadPoolExecutor
+    def one(i_c):
+        return coq_eval_robust(ctx, header + i_c[1], '%s%d' % (name, i_c[0]), timeout)
+    with ThreadPoolExecutor(max_workers=jobs) as ex:
+        return list(ex.map(one, enumerate(chunks)))
+
+
 def check_histories(ctx, histories, chunk=40, jobs=8):
     chunks = []
     for i in range(0, len(histories), chunk):
         part = histories[i:i + chunk]
         chunks.append('Definition cases : list (nat * nat) := [\n' + ';\n'.join(case_term(h) for h in part) + '].\nEval vm_compute in cases.\n')
-    outs = vlib.coq_eval_many(ctx, HEADER, chunks, name='sess', jobs=jobs)
+    outs = coq_eval_many_robust(ctx, HEADER, chunks, name='sess', jobs=jobs)
     res = []
     for out in outs:
         vals = vlib.parse_eval_outputs(out)
@@ -39,5 +71,5 @@ def model_trace(ctx, h):
     text = HEADER + ('Definition sch := %s.\nDefinition ops := %s.\n'
                      'Eval vm_compute in (trace sch (init_sess sch) ops).\nEval vm_compute in (model_dumps sch (init_sess sch) ops).\n'
                      % (sf.coq_schema(h['schema']), sf.coq_ops(h['ops'])))
-    out = vlib.coq_eval(ctx, text, name='trace')
+    out = coq_eval_robust(ctx, text, name='trace')
     return vlib.parse_eval_outputs(out)
